@@ -740,7 +740,7 @@ class Interp:
         names, paths = assigned_and_mutated(s.body)
         for p in paths:
             root = p.split('.')[0]
-            if p in lspec.havoc or root in lspec.havoc or (root in names and self._fresh_in_body(root, s.body)):
+            if p in lspec.havoc or root in lspec.havoc or (root in names and (self._fresh_in_body(root, s.body) or self._alias_of_declared(root, s.body, set(lspec.havoc)))):
                 continue
             # the body writes state outside the frame of the loop contract: a named (auxiliary) obligation, refuted wherever the loop is reachable;
             # execution cannot go on without a contract for that state
@@ -861,7 +861,7 @@ class Interp:
                 continue
             if p == '<complex>':
                 raise Unsupported('%s: in-place mutation through a complex receiver' % tag)
-            if root in names and self._fresh_in_body(root, wrapper.body):
+            if root in names and (self._fresh_in_body(root, wrapper.body) or self._alias_of_declared(root, wrapper.body, declared)):
                 continue
             # the body writes state outside the frame of the loop contract: a named (auxiliary) obligation, refuted wherever the loop is reachable;
             # execution cannot go on without a contract for that state
@@ -959,6 +959,32 @@ class Interp:
                 ctx.assume(f)
             if not is_set:
                 axioms(n)
+
+    def _alias_of_declared(self, name, body, declared):
+        """True if every assignment to the local `name` in the loop body binds an element / attribute of state the loop contract declares
+        (`entry = totals[key]`): a write through `name` is then a write into that declared state, which the executor performs on the state itself."""
+        ok = False
+        for stmt in body:
+            for n in ast.walk(stmt):
+                tgt = None
+                if isinstance(n, ast.Assign) and any(isinstance(t, ast.Name) and t.id == name for t in n.targets):
+                    tgt = n.value
+                elif isinstance(n, ast.AnnAssign) and isinstance(n.target, ast.Name) and n.target.id == name:
+                    tgt = n.value
+                elif isinstance(n, (ast.AugAssign, ast.NamedExpr)) and isinstance(n.target, ast.Name) and n.target.id == name:
+                    return False
+                if tgt is None:
+                    continue
+                v = tgt
+                if not isinstance(v, (ast.Subscript, ast.Attribute)):
+                    return False
+                while isinstance(v, (ast.Subscript, ast.Attribute)):
+                    v = v.value
+                if isinstance(v, ast.Name) and (v.id in declared or any(d.split('.')[0] == v.id for d in declared)):
+                    ok = True
+                else:
+                    return False
+        return ok
 
     def _fresh_in_body(self, name, body):
         """True if every assignment to `name` in body binds a freshly allocated object."""
@@ -1743,6 +1769,23 @@ class Interp:
         lspec = self.spec.loops.get((fr.fi.qualname, ordinal))
         if lspec is None and isinstance(it, (SymMap, MapItems)):
             return Untracked()       # text built from the keys of a symbolic dict (messages only)
+        if lspec is None and kind == 'list' and isinstance(it, SymSeq) and it.keys is None:
+            # no contract: if the element expression and the conditions are pure on an arbitrary element (checked speculatively), the result is an
+            # unknown list of the element sort whose length is that of the source (no conditions) or at most that (conditions) - sound abstraction
+            k = self.ctx.fresh('k_comp', IntS)
+
+            def body():
+                self.assign(g.target, it.elem(k), inner)
+                for c in g.ifs:
+                    self.truthy(self.eval(c, inner))
+                return self.eval(e.elt, inner)
+            ok, v = self.speculate(z3.And(k >= 0, k < it.length()), body)
+            if ok and (is_sym(v) or isinstance(v, (str, int, float, bool))):
+                zv = to_z3(v)
+                out = SymSeq([self.ctx.fresh('comp', z3.SeqSort(zv.sort()))])
+                n_out, n_in = out.length(), it.length()
+                self.ctx.assume(n_out == n_in if not g.ifs else z3.And(n_out >= 0, n_out <= n_in))
+                return out
         if lspec is None:
             raise Unsupported('comprehension %d of %s (line %d) over a symbolic collection has no contract'
                               % (ordinal, fr.fi.qualname, e.lineno))
@@ -1776,6 +1819,56 @@ class Interp:
         return fr.env.pop(acc_name)
 
     # calls -------------------------------------------------------------------
+    def truth_expr(self, node, fr):
+        """truthiness of an expression as one formula (pure context): and/or/not are taken apart structurally, so operands need not be Booleans"""
+        if isinstance(node, ast.BoolOp):
+            is_and = isinstance(node.op, ast.And)
+            vals, acc = [], []
+            for sub in node.values:
+                self.ctx.assumptions.extend(acc)
+                try:
+                    t = to_z3(self.truth_expr(sub, fr))
+                finally:
+                    for _ in acc:
+                        self.ctx.assumptions.pop()
+                vals.append(t)
+                acc.append(t if is_and else z3.Not(t))
+            return z3.And(*vals) if is_and else z3.Or(*vals)
+        if isinstance(node, ast.UnaryOp) and isinstance(node.op, ast.Not):
+            return z3.Not(to_z3(self.truth_expr(node.operand, fr)))
+        t = self.truthy(self.eval(node, fr))
+        if isinstance(t, Untracked):
+            raise Impure()
+        return t
+
+    def any_all_genexp(self, e, fr, is_all):
+        """any/all(<elt> for x in <symbolic sequence> if <conds>) when no loop contract covers the generator: if <elt> and <conds> are pure on an
+        arbitrary element (no side effect, cannot raise: checked by evaluating them speculatively), the result is an unknown Boolean that is
+        False (any) / True (all) for an empty sequence.  Sound abstraction: nothing is assumed about the elements."""
+        ge = e.args[0]
+        g = ge.generators[0]
+        ordinal = fr.loop_ordinals.get(id(ge))
+        if (fr.fi.qualname, ordinal) in self.spec.loops or (fr.fi.qualname, ordinal) in self.spec.abstract_comprehensions:
+            return _MISSING
+        it = self.eval(g.iter, fr)
+        if not (isinstance(it, SymSeq) and it.keys is None):
+            return _MISSING
+        k = self.ctx.fresh('k_anyall', IntS)
+        inner = Frame(fr.fi, dict(fr.env))
+        inner.loop_ordinals = fr.loop_ordinals
+
+        def body():
+            self.assign(g.target, it.elem(k), inner)
+            for c in g.ifs:
+                self.truth_expr(c, inner)
+            return self.truth_expr(ge.elt, inner)
+        ok, _ = self.speculate(z3.And(k >= 0, k < it.length()), body)
+        if not ok:
+            return _MISSING
+        r = self.ctx.fresh('any_all', BoolS)
+        self.ctx.assume(z3.Implies(it.length() == 0, r == z3.BoolVal(bool(is_all))))
+        return r
+
     def sum_genexp(self, e, fr):
         """sum(<elt> for x in <concrete items> if <conds>) without forking: sum of If(conds, elt, 0)."""
         g = e.args[0].generators[0]
@@ -1806,6 +1899,11 @@ class Interp:
         if text == 'sum' and len(e.args) == 1 and not e.keywords and isinstance(e.args[0], ast.GeneratorExp) \
                 and len(e.args[0].generators) == 1 and 'sum' not in self.spec.models and 'sum' not in fr.env:
             r = self.sum_genexp(e, fr)
+            if r is not _MISSING:
+                return r
+        if text in ('any', 'all') and len(e.args) == 1 and not e.keywords and isinstance(e.args[0], ast.GeneratorExp) and len(e.args[0].generators) == 1 \
+                and text not in self.spec.models and text not in fr.env:
+            r = self.any_all_genexp(e, fr, text == 'all')
             if r is not _MISSING:
                 return r
         args = []
